@@ -41,10 +41,16 @@ class Subset(Harness):
                 v = sym_cell(self.kind, "v")
                 inp["cond"] = {"kind": self.variant, "col": "x", "value": scalar_of(v, self.kind)}
         elif m in ("slice", "slice_off"):
-            k = choice("nidx", range(0, self.maxn + 1) if n > 0 else [0])
-            rows = [symx.sym_int_range(f"r{j}", 0, n - 1) for j in range(k)]
-            ctx.assumptions.append("slice/slice_off positions within 0..nrow-1 (negative / out-of-range indices outside the claim)")
-            inp["rows"] = Arr("int64", rows)
+            if choice("rows_given", [True, False]):
+                k = choice("nidx", range(0, self.maxn + 1) if n > 0 else [0])
+                rows = [symx.sym_int_range(f"r{j}", 0, n - 1) for j in range(k)]
+                ctx.assumptions.append("slice/slice_off positions within 0..nrow-1 (negative / out-of-range indices outside the claim)")
+                inp["rows"] = Arr("int64", rows)
+            else:
+                inp["rows"] = None
+            ncol = len(cols)
+            # column positions: the row-id column (last) is always kept so that rows stay identifiable
+            inp["cols"] = choice("cols", [None, [ncol - 1, 0], [0, ncol - 1]] if m == "slice" else [None, [0], [1, 0]])
         elif m in ("head", "tail"):
             if choice("n_given", [True, False]):
                 inp["n"] = SymI64(symx.sym_int_range("n", 0, self.maxn + 1))
@@ -96,12 +102,15 @@ class Subset(Harness):
         n = len(data.cols["rid"])
         cl = []
         cl.append(("result is a DataFrame", T(isinstance(res, Frame) and res.cls == "DataFrame")))
-        cl.append(("column names and order unchanged", T(res.names == data.names)))
-        if res.names != data.names: return cl
+        want = data.names
+        if inp.get("cols") is not None:
+            want = [data.names[c] for c in inp["cols"]] if self.method == "slice" else [x for i, x in enumerate(data.names) if i not in inp["cols"]]
+        cl.append((f"columns are {want}", T(res.names == want)))
+        if res.names != want: return cl
         rids = const_ints(res.cols["rid"])
         cl.append(("row ids valid", T(all(0 <= r < n for r in rids))))
         if not all(0 <= r < n for r in rids): return cl
-        cl += frame_rows_clauses(data, res, rids)
+        cl += frame_rows_clauses(data, res, rids, cols=want)
         m = self.method
         inc = all(a < b for a, b in zip(rids, rids[1:]))
         X = data.cols["x"].cells; k = self.kind
@@ -118,6 +127,10 @@ class Subset(Harness):
                 vc = as_cell(v, k)
                 sel = lambda i: np_eq(X[i], vc, k)
             keep_iff((lambda i: sel(i)) if m == "filter" else (lambda i: z3.Not(sel(i))))
+        elif m == "slice" and inp["rows"] is None:
+            cl.append(("all rows kept in order", T(rids == list(range(n)))))
+        elif m == "slice_off" and inp["rows"] is None:
+            cl.append(("all rows kept in order", T(rids == list(range(n)))))
         elif m == "slice":
             rows = inp["rows"].cells
             cl.append(("one output row per requested position", T(len(rids) == len(rows))))
